@@ -369,6 +369,19 @@ class SourceIndex:
                     # annotated with value = class constant, still could be field; keep
                     pass
                 out[k] = (c, ann)
+        # fields that are not annotated in the class body but that __init__ sets directly from an annotated
+        # parameter (`self.k = p`): the field has the parameter's declared type
+        for c in reversed(self.mro(ci)):
+            init = c.methods.get('__init__')
+            if init is None:
+                continue
+            node = init.node
+            anns = {a.arg: a.annotation for a in node.args.args + node.args.kwonlyargs if a.annotation is not None}
+            for st in node.body:
+                if isinstance(st, ast.Assign) and len(st.targets) == 1 and isinstance(st.targets[0], ast.Attribute) \
+                        and isinstance(st.targets[0].value, ast.Name) and st.targets[0].value.id == 'self' \
+                        and isinstance(st.value, ast.Name) and st.value.id in anns and st.targets[0].attr not in out:
+                    out[st.targets[0].attr] = (c, anns[st.value.id])
         return out
 
     def is_enum(self, ci: ClassInfo) -> bool:
